@@ -1,121 +1,9 @@
 //! C16 — multi-record parsers equal repeated single-record parsing (differential, E2).
 use serde_json::{json, Map};
-use tls_parser::*;
-use vchecks::mirror::{call, Base, ToV};
+use vchecks::multi::check;
 use vcommon::catalogue as cat;
 use vcommon::en::Alpha;
-use vcommon::iso::guarded;
 use vcommon::report::*;
-use vcommon::v::{Got, V};
-
-/// explicit loop over the real single-record parser: (records, offset where parsing stops, first-record outcome)
-fn loop_tls(b: &[u8]) -> (Vec<V>, usize, bool) {
-    let base = Base::of(b);
-    let mut v = Vec::new();
-    let mut off = 0;
-    let mut first_ok = false;
-    loop {
-        match parse_tls_plaintext(&b[off..]) {
-            Ok((rem, r)) => {
-                let used = b.len() - off - rem.len();
-                v.push(r.to_v(&base));
-                first_ok = true;
-                if used == 0 {
-                    break;
-                }
-                off += used;
-            }
-            Err(_) => break,
-        }
-    }
-    (v, off, first_ok)
-}
-
-fn loop_dtls(b: &[u8]) -> (Vec<V>, usize, bool) {
-    let base = Base::of(b);
-    let mut v = Vec::new();
-    let mut off = 0;
-    let mut first_ok = false;
-    loop {
-        match parse_dtls_plaintext_record(&b[off..]) {
-            Ok((rem, r)) => {
-                let used = b.len() - off - rem.len();
-                v.push(r.to_v(&base));
-                first_ok = true;
-                if used == 0 {
-                    break;
-                }
-                off += used;
-            }
-            Err(_) => break,
-        }
-    }
-    (v, off, first_ok)
-}
-
-fn check(b: &[u8], sink: &mut Sink) {
-    for (name, dtls) in [("tls_parser_many", false), ("parse_dtls_plaintext_records", true)] {
-        let got = if dtls { call(b, parse_dtls_plaintext_records) } else { call(b, tls_parser_many) };
-        let exp = guarded(|| if dtls { loop_dtls(b) } else { loop_tls(b) });
-        let (recs, stop, first_ok) = match exp {
-            Ok(x) => x,
-            Err(p) => {
-                sink.violation(format!("{} {} panic", name, hexs(b)), format!("single-record parser panics: {}", p), json!({"kind":"many","input":hexs(b)}));
-                continue;
-            }
-        };
-        sink.case(fnv(dtls as u64, b), true);
-        let n = recs.len();
-        sink.count(name, match n {
-            0 => "0 records",
-            1 => "1 record",
-            2 => "2 records",
-            _ => "3+ records",
-        });
-        let bad = match &got {
-            Got::Ok(V::L(items), consumed) => {
-                if !first_ok {
-                    Some("succeeds although the very first record does not parse".to_string())
-                } else if *items != recs {
-                    Some(format!("returns {} record(s), the explicit loop {}: {:?} vs {:?}", items.len(), n, items, recs))
-                } else if *consumed != stop {
-                    Some(format!("remainder starts at byte {}, the first failing / incomplete record starts at {}", consumed, stop))
-                } else {
-                    None
-                }
-            }
-            Got::Panic(p) => Some(format!("panic: {}", p)),
-            Got::BadRemainder(m) => Some(m.clone()),
-            _ => {
-                if first_ok {
-                    Some(format!("fails with {:?} although the first record parses", got))
-                } else {
-                    None
-                }
-            }
-        };
-        if let Some(w) = bad {
-            sink.violation(
-                format!("{} {}", name, hexs(b)),
-                format!("{}({}): {}", name, hexshort(b), w),
-                json!({"kind":"many","input":hexs(b)}),
-            );
-        }
-    }
-    // the deprecated alias
-    #[allow(deprecated)]
-    let a = call(b, tls_parser);
-    let p = call(b, parse_tls_plaintext);
-    sink.evals += 1;
-    sink.count("tls_parser", if a.is_ok() { "Ok" } else { "not-Ok" });
-    if a != p {
-        sink.violation(
-            format!("tls_parser {}", hexs(b)),
-            format!("tls_parser({}) = {:?} but parse_tls_plaintext gives {:?}", hexshort(b), a, p),
-            json!({"kind":"many","input":hexs(b)}),
-        );
-    }
-}
 
 fn main() {
     let run = Run::from_args("C16", "exploration");
@@ -176,6 +64,9 @@ fn main() {
         })
         .buf,
     ];
+    for m in cat::hellos_with_extension_lists().into_iter().filter(|w| w.lens.first().map_or(false, |l| l.label == "hs_len")).rev().take(12).step_by(2) {
+        recs.push(cat::record(0x16, 0x0303, |w| { w.append(&m); }).buf);
+    }
     let d_hs = cat::dtls_handshake_messages();
     let drecs: Vec<Vec<u8>> = vec![
         cat::dtls_record(0x14, 0xfefd, 0, 1, |w| {
